@@ -43,8 +43,19 @@ Theorem c03_poll_response_is_taken : forall cfg me e i r t s, t_task e = TPoll i
   mids_of (s_q (cur i s)) = smids l ++ mids_of (s_q (cur i (ServerInv.stof (run_task cfg me e s)))).
 Proof. exact poll_response_is_taken. Qed.
 
+(* ... and for the WebSocket writer: what a step of the writer puts on the WebSocket - followed by what a failed send dropped -
+   is what the step took from the head of the session's queue, in order, and exactly that is recorded as taken *)
+Theorem c03_writer_sends_what_it_takes : forall cfg me e i c rd s, has i s = true ->
+  (t_task e = TWriterStart i c rd \/ exists t, t_task e = TPoll i (PKWriter c rd) t) ->
+  exists took lost,
+    s_taken (cur i (ServerInv.stof (run_task cfg me e s))) = s_taken (cur i s) ++ smids took /\
+    mids_of (s_q (cur i s)) = smids took ++ mids_of (s_q (cur i (ServerInv.stof (run_task cfg me e s)))) /\
+    wsent c (ServerInv.outof (run_task cfg me e s)) ++ lost = took.
+Proof. exact writer_sends_what_it_takes. Qed.
+
 Print Assumptions c03_conservation.
 Print Assumptions c03_at_most_once.
 Print Assumptions c03_in_order.
 Print Assumptions c03_send_to_absent_is_noop.
 Print Assumptions c03_poll_response_is_taken.
+Print Assumptions c03_writer_sends_what_it_takes.
